@@ -13,7 +13,10 @@ so that a check can script "the n-th TunnellingRequest gets a stale ACK".
 
 from __future__ import annotations
 
-from collections.abc import Callable
+from collections.abc import Callable, Iterator
+import contextlib
+import functools
+import random
 from typing import Any
 
 from xknx.cemi import CEMIFrame, CEMILData, CEMIMessageCode
@@ -331,3 +334,121 @@ class IterationInjector:
     @property
     def now(self) -> int:
         return self.loop.iterations - self.base
+
+
+# ---------------------------------------------------------------------------
+# secure tunnelling: adapter over vlib.peers_secure.SecureServer (imported read-only)
+
+SECURE_USER_ID = 2
+SECURE_USER_PASSWORD = "verif-user"
+SECURE_DEVICE_PASSWORD = "verif-device"
+
+
+@contextlib.contextmanager
+def secure_harness(seed: int = 0) -> Iterator[None]:
+    """Memoise the (pure) PBKDF2 derivations on both sides and make ECDH key pairs reproducible."""
+    from xknx.io import ip_secure
+
+    from . import refcrypto_ip as ref
+
+    saved_x = (ip_secure.derive_user_password, ip_secure.derive_device_authentication_password,
+               ip_secure.generate_ecdh_key_pair)
+    saved_r = (ref.user_password_key, ref.device_authentication_key)
+    keyrng = random.Random(f"secure/{seed}")
+
+    def keypair() -> Any:
+        priv = ref.x25519_private(keyrng.randbytes(32))
+        return priv, ref.x25519_public_bytes(priv)
+
+    ip_secure.derive_user_password = _PBKDF_CACHE.setdefault("xu", functools.cache(saved_x[0]))
+    ip_secure.derive_device_authentication_password = _PBKDF_CACHE.setdefault("xd", functools.cache(saved_x[1]))
+    ip_secure.generate_ecdh_key_pair = keypair
+    ref.user_password_key = _PBKDF_CACHE.setdefault("ru", functools.cache(saved_r[0]))
+    ref.device_authentication_key = _PBKDF_CACHE.setdefault("rd", functools.cache(saved_r[1]))
+    try:
+        yield
+    finally:
+        (ip_secure.derive_user_password, ip_secure.derive_device_authentication_password,
+         ip_secure.generate_ecdh_key_pair) = saved_x
+        ref.user_password_key, ref.device_authentication_key = saved_r
+
+
+_PBKDF_CACHE: dict[str, Any] = {}
+
+
+class SecureGateway(Gateway):
+    """The scripted gateway behind KNX IP Secure sessions (one SecureServer per TCP connection).
+
+    Inner frames go through the very same policies / history as the plain gateway; what it sends is wrapped by the
+    reference crypto at delivery time.  `session_policy()` == "silent" leaves SessionRequest / SessionAuthenticate
+    unanswered.  Use inside `secure_harness()`.
+    """
+
+    def __init__(self, loop: VLoop, latency: float = 0.005, first_channel: int = 10) -> None:
+        super().__init__(loop, latency, first_channel)
+        self.servers: dict[Any, Any] = {}
+        self.session_policy: Callable[[], str] = lambda: "ok"
+        self._keyrng = random.Random("secure-gateway")
+        self.n_sessions_authenticated = 0
+
+    def on_connection(self, tr: Any) -> None:
+        """To be called from loop.on_connection for every new TCP connection."""
+        from .peers_secure import SecureServer
+
+        srv = SecureServer(
+            self.loop, server_private_raw=self._keyrng.randbytes(32), device_password=SECURE_DEVICE_PASSWORD,
+            users={SECURE_USER_ID: SECURE_USER_PASSWORD}, session_id=len(self.servers) + 1, delay=self.latency,
+            auto_handshake=True, auto_tunnel=False,
+        )
+        self.servers[tr] = srv
+        srv.attach(tr)
+        srv.on_record = lambda rec: self._record(tr, srv, rec)
+
+    def _record(self, tr: Any, srv: Any, rec: Any) -> None:
+        from . import refcrypto_ip as ref
+
+        idx = self.tr_index(tr)
+        if rec.kind == "plain":
+            if rec.service == ref.HDR_SESSION_REQUEST:
+                srv.auto_handshake = self.session_policy() == "ok"
+                self.note("tx", type="SessionRequest", tr=idx)
+            else:
+                self.note("tx", type="PlainFrame", service=f"{rec.service or 0:04x}", tr=idx)
+            return
+        if rec.kind != "wrapper" or not rec.authentic or rec.inner is None:
+            self.note("tx_unauthentic", kind=rec.kind, tr=idx)
+            return
+        svc = ref.service_of(rec.inner)
+        if svc == ref.HDR_SESSION_AUTHENTICATE:
+            srv.auto_handshake = self.session_policy() == "ok"
+            if srv.auto_handshake:
+                self.n_sessions_authenticated += 1
+            self.note("tx", type="SessionAuthenticate", tr=idx, seq=rec.seq)
+        elif svc == ref.HDR_SESSION_STATUS:
+            self.note("tx", type="SessionStatus", status=rec.inner[6], tr=idx, seq=rec.seq)
+        else:
+            self._on_send(tr, rec.inner, None)
+
+    def _deliver(self, tr: Any, body: Any, data: bytes, meta: dict[str, Any]) -> None:
+        srv = self.servers.get(tr)
+        if srv is not None:
+            if srv.key is None or tr.closed:
+                self.note("rx_dropped", **describe(body), why="no session" if srv.key is None else "closed", tr=self.tr_index(tr))
+                return
+            data = srv.wrapped(data)
+        super()._deliver(tr, body, data, meta)
+
+    def send_session_status(self, status: int, tr: Any = None) -> None:
+        """Server -> client SessionStatus (3 = timeout, 5 = close), wrapped, delivered now."""
+        from . import refcrypto_ip as ref
+
+        tr = tr if tr is not None else self.transport
+        srv = self.servers.get(tr)
+        if srv is None or srv.key is None or tr.closed:
+            self.note("rx_dropped", type="SessionStatus", why="no session")
+            return
+        self.note("rx", type="SessionStatus", status=status, tr=self.tr_index(tr))
+        if tr is self.transport:
+            self.channel = None  # the server drops the tunnel with the session
+        tr.deliver(srv.wrapped(ref.session_status(status)))
+        self.note("rx_done", type="SessionStatus")
